@@ -133,9 +133,12 @@ def handle (j : Json) : Except String Json := do
   else if op == "minutes" then
     let d0 ← getInt j "day0"; let k ← getNat j "days"
     let mut out : Array Json := #[]
+    -- the Decimal hour value of each minute of the day, once per request; per day the date fields
+    -- come from the model's Calendar (`getTariffAt l t` = `getTariffH l md wd hour` by definition)
+    let hours : Array Rat := ((List.range 1440).map (fun mi => (targetHour (mi / 60) (mi % 60) 0).toRat)).toArray
     for i in List.range k do
-      let t0 := (d0 + (i : Int)) * 86400
-      let rs := (List.range 1440).map (fun (mi : Nat) => jRes (getTariffAt l (t0 + (mi : Int) * 60)))
+      let f := fieldsOf ((d0 + (i : Int)) * 86400)
+      let rs := (List.range 1440).map (fun (mi : Nat) => jRes (getTariffH l f.md f.wd (hours.getD mi 0)))
       out := out.push (Json.arr ((rle rs).map (fun p => Json.arr #[p.1, jN p.2])).toArray)
     pure (Json.mkObj [("days", Json.arr out)])
   else throw s!"unknown op {op}"
